@@ -8,7 +8,7 @@ from vlib import gstr, gz, glist
 import audit_texts
 from props import c16
 
-DISPLAY_KINDS = ("Constant", "Name", "Call", "BinOp", "Compare", "BoolOp")
+DISPLAY_KINDS = ("Constant", "Name", "Call", "BinOp", "Compare", "BoolOp", "UnaryOp")
 
 
 def cls(s):
@@ -27,7 +27,8 @@ def shown_problems(r):
     """what the checker inferred but the report does not show"""
     out = []
     facts = r.get("facts") or []
-    details = collections.Counter(d for d in (detail_of(c[2]) for c in r["calls"]) if d is not None)
+    # what the RENDERED report shows (an enrich call whose end lies before its start leaves nothing behind)
+    details = collections.Counter(d for d in (detail_of(x) for x in (r.get("details") or [])) if d is not None)
     need = collections.Counter()
     for kind, line, col, rule, t, root in facts:
         if rule is not None or t in (None, "inparent"):
